@@ -215,7 +215,7 @@ func (a *w3Analysis) run() {
 	case "C28":
 		a.crashStates(files, writtenByID, false)
 		a.corruptions(files)
-	case "C29":
+	case "C29", "C40": // C40: the same requests, for the race detector and the deadlock/leak oracles
 		a.finalChecks(files, writtenByID)
 		a.queriesVsDisk(files, writtenByID)
 	case "C30":
@@ -384,6 +384,7 @@ func (a *w3Analysis) expectedIDs(files []*w3File, i int, mod []byte) (map[int64]
 func (a *w3Analysis) crashStates(files []*w3File, written map[int64]*w3Written, checkServed bool) {
 	b := a.h.b
 	rng := rand.New(rand.NewSource(b.CrashSeed))
+	exhaustiveFile := rng.Intn(len(files))
 	for i, f := range files {
 		if f.init == nil {
 			continue
@@ -397,8 +398,14 @@ func (a *w3Analysis) crashStates(files []*w3File, written map[int64]*w3Written, 
 				}
 			}
 		}
-		if b.Exhaustive {
-			for o := 0; o <= len(f.data); o++ {
+		if b.Exhaustive && i == exhaustiveFile {
+			// every offset of one file (a window of 12000 bytes when the file is longer)
+			lo, hi := 0, len(f.data)
+			if hi > 12000 {
+				lo = rng.Intn(hi - 12000)
+				hi = lo + 12000
+			}
+			for o := lo; o <= hi; o++ {
 				offs[o] = true
 			}
 		} else {
